@@ -138,10 +138,22 @@ class Harness(cm.BaseB):
             dest = rt.Labware("dest", R, C, min_volume=0, max_volume=1e5) if with_dest else None
             wl = getattr(rt, dev)(max_volume=maxv)
             try:
+                extra = {}
+                hooked = []
+                if one_trough:
+                    # other mixing parameters, and hooks that hand a different worklist object back
+                    wl2 = getattr(rt, dev)(max_volume=maxv)
+                    extra = dict(
+                        mix_threshold=0.5, mix_wash="flush", mix_volume=0.5,
+                        pre_mix_hook=lambda col, w: hooked.append(("pre", col)) or None,
+                        post_mix_hook=lambda col, w: hooked.append(("post", col)) or (wl2 if col == 0 else None),
+                    )
                 plan.to_worklist(
                     worklist=wl, stock=st, stock_column=1, diluent=di, diluent_column=2, dilution_plate=plate,
-                    destination_plate=dest, v_destination=1.0 if with_dest else None, mix_repeat=mix_repeat,
+                    destination_plate=dest, v_destination=1.0 if with_dest else None, mix_repeat=mix_repeat, **extra,
                 )
+                if one_trough and [h for h in hooked if h[0] == "pre"] != [("pre", i[0]) for i in plan.instructions]:
+                    V.append(("C14/not-executable", f"{tag}: pre_mix_hook calls {hooked}"))
             except Exception as e:
                 V.append(("C14/not-executable", f"{tag}: {type(e).__name__}: {e}"))
                 continue
